@@ -127,6 +127,7 @@ type Enc struct {
 	nEntryAsm      int
 	groupTail      []*Oblig
 	atVars         map[string]SV
+	mapRanges      map[*ssa.Range]int
 	atSelect       *ssa.Select // the select statement whose at-clauses are being applied (selhas / selhassend)
 	gaddrs         []Term
 	privCells      []privCell
@@ -286,6 +287,11 @@ func (e *Enc) ordName(kind string) string {
 
 func (e *Enc) unsupported(what string) {
 	e.unsup = append(e.unsup, what)
+	if e.pass == 2 {
+		// a construct outside the modelled subset is over-approximated by havoc, which proves nothing about what the
+		// construct itself may write or whether it panics: it is an undischarged obligation, not a footnote
+		e.oblige("unsupported", e.ordName("unsupported"), tFalse, token.NoPos, "construct outside the verified subset: "+what)
+	}
 }
 
 // ---------- heap access ----------
